@@ -271,7 +271,7 @@ int socket(int domain, int type, int protocol)
   if (fd >= 0)
   {
     unsigned char k = K_NONE;
-    if (g_armed.load(std::memory_order_acquire) && !tl_harness && domain == AF_INET &&
+    if (g_armed.load(std::memory_order_acquire) && !tl_harness && (domain == AF_INET || domain == AF_INET6) &&
         (type & SOCK_NONBLOCK))
     {
       int base = type & ~(SOCK_NONBLOCK | SOCK_CLOEXEC);
